@@ -63,7 +63,7 @@ def family(prop, tier, exe, wd):
     jobs += F.modifier_table(pred)
     jobs += fancy_ref_jobs(pred, 40 if not thorough else 400)
     import e3
-    jobs += F.per_key([k["name"] for k in e3.tool_keys(exe, wd)], pred, 2 if not thorough else 3)
+    jobs += F.per_key(e3.tool_keys(exe, wd), pred, 2 if not thorough else 3)
     return jobs
 
 
